@@ -28,7 +28,30 @@ SYNC_RULE = ("sync stream: per case a fresh regtest canister (threshold 1-4, def
              "A case is distinct by the hash of its message kinds and budgets.")
 
 PROPS = {
+    "C01": {
+        "streams": [{"name": "ledger", "quick": 160, "thorough": 1600}, {"name": "sync", "quick": 64, "thorough": 800}],
+        "rule": LEDGER_RULE,
+        "explanation": "theorems: for every state satisfying the global invariant Inv (established by init, preserved by push of a transaction-valid block and by ingestion+pop: Props/InvPush, Props/InvIngest) "
+                       "the complete unfiltered answer of get_utxos for an address is a permutation of the reference ledger replay of (stable chain ++ main chain) restricted to that address: each unspent output once, "
+                       "true value, height of its block on that chain, heights non-increasing, tip = last main-chain block; the same for any root-path prefix (min_confirmations, page tips). Spec line `ledgerat` replays the ledger "
+                       "at the tip the implementation names, on every generated state.",
+        "technique": "Lean 4 refinement proof (global invariant relating stable structures and unstable caches to a ghost history; query = ledger replay) + differential correspondence with ledger-replay oracle lines",
+        "level_text": "Machine-checked: Inv => answer = ledger (Props/C01), Inv established by init and preserved by push / ingestion+pop for all trees, transactions and budgets that do not pause mid-block; tie by the ledger and sync streams.",
+        "level_note": "Hypotheses made explicit: transaction-valid blocks, txid determines the transaction, no txid repeated along a chain (BIP34), stable height <= 2^32 for the ordering part. States in the middle of a sliced ingestion are covered by C08's theorems + the streams (queries at every pause), not by Inv. Page requests with an offset are covered by C06.",
+        "assumptions": ["Address::from_script and txid computation are library functions (given)"],
+    },
+    "C05": {
+        "streams": [{"name": "ledger", "quick": 160, "thorough": 1600}, {"name": "sync", "quick": 64, "thorough": 800}],
+        "rule": LEDGER_RULE,
+        "explanation": "theorems: under Inv, get_balance(a, c) = total value of the ledger at the same prefix get_utxos(a, c) walks = sum of the UTXOs it returns (all pages); identical errors for malformed / wrong-network address and too large c; "
+                       "get_balance never traps. Spec line `sumat` compares the sum of the implementation's get_utxos answer with its get_balance answer for every c.",
+        "technique": "Lean 4 corollary of the ledger refinement (balance = sum of ledger values at the stability-count prefix) + differential correspondence with sum lines",
+        "level_text": "Machine-checked equality for all states satisfying Inv and all c; both endpoints are queried with the same request after every generated step.",
+        "level_note": "Same hypotheses as C01. The query variants share the code path of the update variants minus charging (C16).",
+        "assumptions": [],
+    },
     "C10": {
+        "spec_ops": [],
         "streams": [{"name": "sync", "quick": 160, "thorough": 3200}],
         "rule": SYNC_RULE,
         "explanation": "theorems: insert_block accepts iff parent in tree, not already a child of it, header valid (C11), body valid (C12) and push succeeds; rejected blocks return no state (atomic); in a response the first "
@@ -39,6 +62,7 @@ PROPS = {
         "assumptions": ["regtest only for the end-to-end stream (proof of work must be mined); mainnet/testnet header rules are covered by C11's stream"],
     },
     "C13": {
+        "spec_ops": [],
         "streams": [{"name": "sync", "quick": 160, "thorough": 3200}],
         "rule": SYNC_RULE,
         "explanation": "theorems over ALL action sequences of the async transition system (heartbeat split at its await): single flight (pending request iff guard flag), stored response always well-formed (the request-selection "
@@ -50,6 +74,7 @@ PROPS = {
         "assumptions": ["replies have the kind their request asks for (other kinds trap the continuation; the trap state is modelled as rollback + guard release)"],
     },
     "C03": {
+        "spec_ops": ["c advance"],
         "streams": [{"name": "ledger", "quick": 160, "thorough": 1600}, {"name": "sync", "quick": 80, "thorough": 800}],
         "rule": LEDGER_RULE + " After every ingestion opportunity the line `advance` records how many anchors were popped, whether the new anchor lies on the chain served before, and whether a stable child is still pending.",
         "explanation": "theorems: get_stable_child = some i iff child i satisfies the difficulty rule or (testnet/regtest) the depth rule, both directions, = none iff no child does, uniqueness; the selected child is always the "
@@ -60,6 +85,7 @@ PROPS = {
         "assumptions": ["threshold changes while an ingestion is paused are outside the modelled domain of the ledger stream (see DESIGN F13)"],
     },
     "C04": {
+        "spec_ops": ["c cutat"],
         "streams": [{"name": "ledger", "quick": 160, "thorough": 1600}],
         "rule": LEDGER_RULE,
         "explanation": "theorems: the vector-of-levels the code builds = the per-height (hash, depth) table of the tree; get_stability_count >= c iff the block is buried under >= c blocks and "
@@ -71,6 +97,7 @@ PROPS = {
         "assumptions": ["blocks fed through unstable_blocks::push with mock difficulties"],
     },
     "C11": {
+        "spec_ops": [],
         "streams": [{"name": "hdr", "quick": 160, "thorough": 2400}, {"name": "sync", "quick": 96, "thorough": 1600}],
         "rule": "hdr stream: synthetic header stores for mainnet/testnet4/regtest (window from genesis, straddling a multiple of 2016, a full 2016-block period, or arbitrary base; timestamps with 1 s / 1200 s / >1200 s gaps and "
                 "backdated headers; min-difficulty runs vs hard bits), then per store 14 (quick) / 40 (thorough) queries of the required next target (biased to the last height of a period and the window tip; walk-back traps "
@@ -84,6 +111,7 @@ PROPS = {
         "assumptions": ["u32 overflow of prev.time + 1200 and a missing genesis header are outside the modelled domain", "Rust compares targets, Core compares nBits: a non-canonical encoding of the required target is accepted by the code (noted, not part of the property)"],
     },
     "C12": {
+        "spec_ops": [],
         "streams": [{"name": "blk", "quick": 1500, "thorough": 20000}, {"name": "sync", "quick": 160, "thorough": 1600}],
         "rule": "blk stream: regtest blocks with 1-40 transactions (legacy and segwit) whose header is valid by construction (mined on genesis), validated by BlockValidator::validate_block in their original "
                 "form and under every CVE-2012-2459 mutation per level (len = 2^j*m, m odd >= 3), dup-last, random duplicate, swap, removal, empty, witness- and scriptSig-malleated copies, planted malleated twins "
@@ -96,6 +124,7 @@ PROPS = {
         "assumptions": ["the check is on normalised txids (compute_ntxid): stricter than 'no shared txid'"],
     },
     "C15": {
+        "spec_ops": [],
         "streams": [{"name": "ledger", "quick": 160, "thorough": 1600}, {"name": "sync", "quick": 80, "thorough": 800}],
         "rule": LEDGER_RULE,
         "explanation": "theorems: percentiles = [] or 101 values, non-decreasing, index 0/100 = min/max, nearest-rank on any sorted permutation, order independent; the input is the first <= 10000 cached fee rates "
@@ -106,6 +135,7 @@ PROPS = {
         "assumptions": [],
     },
     "C18": {
+        "spec_ops": [],
         "streams": [{"name": "tf", "quick": 800, "thorough": 20000}],
         "rule": "tf stream: for each of the 10 explorer transforms, bodies shaped for the endpoint with whitespace / member order / extra and duplicate members varied, wrong types, negative/float/huge numbers, "
                 "truncated JSON, invalid UTF-8, deep nesting, empty; text bodies (+N, N\\n, leading zeros/space, overflow, sign, letters); statuses 200/404/500/0/201/301/2^40; 0-2 headers. Distinct by the hash of the outcome vector.",
@@ -117,6 +147,7 @@ PROPS = {
         "assumptions": ["ParserWF: numbers the parser reports as u64 are < 2^64"],
     },
     "C19": {
+        "spec_ops": [],
         "streams": [{"name": "txc", "quick": 3000, "thorough": 60000}, {"name": "sync", "quick": 160, "thorough": 1600}],
         "rule": "txc stream: random transactions (0-3 inputs, 0-3 outputs, legacy/segwit, witness stacks, scripts of 0-300 bytes), their exact serialisation and variants: extended by 1-5 bytes, truncated, "
                 "3 single-bit flips, a one-byte length replaced by 3/5/9-byte encodings (incl. 2^32+b), mangled segwit marker/flag, garbage; each fed to consensus::deserialize::<Transaction> (what send_transaction calls) "
@@ -129,6 +160,7 @@ PROPS = {
         "assumptions": ["payload elements are bytes (< 256)"],
     },
     "C14": {
+        "spec_ops": [],
         "streams": [{"name": "sync", "quick": 160, "thorough": 3200}],
         "rule": SYNC_RULE,
         "explanation": "theorems: guard passes iff (access enabled, network matches, sync rule); precedence of refusals; refused calls return no state and charge nothing; send_transaction exempt; "
@@ -139,6 +171,7 @@ PROPS = {
         "assumptions": ["native build: a panic is the observable 'trap'; is_watchdog_caller/controller checks of set_config are wasm-only and not modelled"],
     },
     "C16": {
+        "spec_ops": [],
         "streams": [{"name": "sync", "quick": 160, "thorough": 3200}],
         "rule": SYNC_RULE,
         "explanation": "theorems: charge formulas (metered/flat/send), refusal below maximum before any charge, result <= maximum, query variants accept 0, and from the regenerated tables: "
@@ -149,6 +182,7 @@ PROPS = {
         "assumptions": ["the native mock of msg_cycles_available does not decrease after msg_cycles_accept; on the IC it does, which cannot matter because fee <= maximum - base"],
     },
     "C02": {
+        "spec_ops": ["c bestat"],
         "streams": [{"name": "ledger", "quick": 160, "thorough": 1600}],
         "rule": LEDGER_RULE,
         "explanation": "theorems: main_chain_by_difficulty = first maximal (difficulty, length) root-to-leaf path for every tree; "
@@ -160,6 +194,7 @@ PROPS = {
         "assumptions": ["blocks are fed through unstable_blocks::push with mock difficulties (validation is covered by C10-C12)"],
     },
     "C17": {
+        "spec_ops": [],
         "technique": "Lean 4 theorems (decision = quorum spec, Perm-invariance, latest-round-only) + differential correspondence watchdog crate vs compiled Lean model",
         "level_text": "Machine-checked theorems over the Lean model of median/calculate_height_target/compare/calculate_target/storage for all height lists, configurations and orders (no bound); the model is tied to the watchdog crate by a differential stream that includes an exhaustive palette sub-space per target configuration.",
         "level_note": "Trusted: Lean kernel; axioms propext/Classical.choice/Quot.sound; harness + hooks watchdog::verif_hooks; translator for the five config rows. Not modelled: HTTP outcalls, timers, inter-canister calls. Domain: heights < 2^63, median >= behind threshold.",
